@@ -42,7 +42,7 @@ def mc_runs(ctx):
         runs = [("cid3", dict(BASE)), ("addr3cid3", dict(BASE, Addrs="<- Addrs3")), ("cid4len1", dict(BASE, MaxCid=4, MaxOpenLen=1))]
     out = []
     for name, consts in runs:
-        r = tlc_mc(ctx, "TcpTransportMC.tla", write_cfg(ctx, "mc_%s.cfg" % name, consts, MC_INV), workers=6 if ctx.quick() else 10, timeout=3000)
+        r = tlc_mc(ctx, "TcpTransportMC.tla", write_cfg(ctx, "mc_%s.cfg" % name, consts, MC_INV), workers=6 if ctx.quick() else 12, timeout=3000)
         if not r["ok"]:
             raise ToolError("TcpTransportMC violates an invariant in config %s: the model must be corrected or the counterexample "
                             "replayed against the real transport:\n%s" % (name, r.get("error", r["out"][-3000:])))
@@ -188,7 +188,7 @@ def random_schedule(rnd, sid, T):
 def make_schedules(ctx, bfs, deep):
     rnd = random.Random(ctx.seed)
     T = 250
-    n_bfs, n_rand = (1000, 800) if ctx.quick() else (8000, 5000)
+    n_bfs, n_rand = (1000, 800) if ctx.quick() else (6000, 3300)
     # every (action, result) pair of the graph is taken at least a few times, the rest is a seeded sample
     by_last = {}
     for b in bfs:
@@ -205,7 +205,7 @@ def make_schedules(ctx, bfs, deep):
         sid += 1
         scheds.append(from_behaviour(b, rnd, sid, T, "tlc"))
     deep = [b for b in deep if len(b) >= 12]
-    for b in rnd.sample(deep, min(len(deep), 100 if ctx.quick() else 1000)):
+    for b in rnd.sample(deep, min(len(deep), 100 if ctx.quick() else 700)):
         sid += 1
         scheds.append(from_behaviour(b, rnd, sid, T, "tlc-sim"))
     for _ in range(n_rand):
